@@ -146,6 +146,11 @@ def check(report: Report, repo: Repo) -> None:
             r = it.call_function(it.class_attr(cls, "backward"), [ctx2, g], {})
             ok = isinstance(r, tuple) and len(r) >= 1 and ident_ok(TM.term_of(r[0]), g.term) and all(x is None for x in r[1:])
             report.add("R1-identity", f"{cons}.backward", ok, "backward must return the incoming gradient (or a clone) for the tensor and None for the other inputs", fmt(r), "(grad | grad.clone(), None, ...)")
+            if ok:
+                # grad-mode typestate: autograd runs backward() with recording on when the caller asked for
+                # create_graph=True; a gradient produced inside no_grad / inference_mode is cut out of that graph
+                cut = [x for x in r if isinstance(x, TV) and getattr(x, "nograd", False)]
+                report.add("R1-identity", f"{cons}.backward::grad-mode", not cut, "the gradient handed back is not produced inside a no_grad / inference_mode region (double backward through a tracked module keeps its second-order terms)", "produced under no_grad" if cut else "caller's grad mode", "caller's grad mode")
             if extra == "node_meta":
                 sb = [e for e in it.events if e.kind == "callv" and "set_bwd" in fmt(e["callee"])]
                 vals = [TM.term_of(v) for e in sb for v in list(e["args"]) + list(e["kwargs"].values())]
